@@ -31,7 +31,7 @@ Cfg_cycle == { Cfg(1, 2, 4, TRUE, << <<S(1), S(2), J(1), J(2), CLR, S(3), S(4), 
                Cfg(0, 2, 3, TRUE, << <<Q(1), S(1), CL, J(1), CLR, S(2), P(1), CL, J(2), CLR>>, <<C(1), C(1)>>, <<SUB, C(2)>> >>) }
 \* no close: the consumer must stay blocked (never returns short)
 Cfg_block == { Cfg(0, 2, 3, FALSE, << <<S(1), S(2), J(1), J(2)>>, <<P(1)>>, <<C(2)>> >>) }
-Cfg_dbg == Cfg_selfclose
+Cfg_dbg == Cfg_2p2c
 Cfg_quick == Cfg_selfclose \cup Cfg_2p1c \cup Cfg_cycle \cup Cfg_block
 Cfg_sc2 == Cfg_1p2c \cup Cfg_2p2c
 
